@@ -6,9 +6,15 @@
 //   S w,<ctx>,<cond> ...          a thread that performs monitor.wait(pred = cond[<cond>] != 0, node(ctx)) per token
 //   N <op> ...                    a notifier thread; ops:
 //        sig,<cond|->,<kind>,<f|r>   [cond[<cond>] = 1 (relaxed store);] then notify: kind = c<ctx> (notify(ctx==)),
-//                                    all (notify_all), one (notify_one), abort (abort_all); f = fenced entry point,
+//                                    all (notify_all), one (notify_one), abort (abort_all), p<ctx>
+//                                    (notify_one_relaxed(ctx==): only the relaxed entry point exists, f = preceded
+//                                    by atomic_fence_seq_cst() as its callers do with an RMW); f = fenced entry point,
 //                                    r = the *_relaxed entry point
 //        clr,<cond>                  cond[<cond>] = 0
+//   g,<k> (both kinds of thread)     arrival-order gate: spin until k wait() calls have enqueued their node (ghost
+//                                    counter bumped by the first predicate evaluation of each wait(), i.e. after
+//                                    prepare_wait; unnamed, so not part of the printed trace) — gives wait sets with a
+//                                    known arrival order ("older" / "newer" waiter)
 // Per run prints: run <i> / e <tid> <kind> <var> <order> <a> <b> <ok> (all accesses to named variables, fences, futex
 // calls, in execution order) / res <tid> <results oldest first: 1 woken, 0 predicate true (cancelled), 2 aborted> /
 // mon <verdict> / sched <tids> / end.
@@ -16,8 +22,14 @@
 //   * deadlock = every live thread parked (scheduler) -> for every sleeper parked: is its predicate true?
 //     "LOST-WAKEUP" if some parked sleeper's condition holds; "BLOCKED" otherwise (scenario never signalled it);
 //   * "DOUBLE-V": a V() (exchange(0)) that found the semaphore word already 0 (the assertion in V(), compiled out);
-//   * "WOKEN-UNSIGNALLED": wait returned true (woken) although nobody dequeued the node: cannot happen silently, it
-//     shows as a P() that consumed a V nobody issued -> visible as DOUBLE-V/lost V; covered by the trace replay.
+//   * "UNLOCKED-WAITSET-WRITE": a store to my_waitset.count / my_epoch (both written only inside the monitor's critical
+//     sections) by a thread that does not hold my_mutex — a notifier/sleeper that mutates the wait set without the lock;
+//   * "WRONG-CONTEXT-WAKEUP": wait(ctx) returned true (woken by a V) although no notification whose predicate accepts
+//     ctx (notify(pred)/notify_one_relaxed(pred) with pred(ctx), or notify_one / notify_all / abort_all) was in flight
+//     between the begin of that wait() and its return (ghost counters of started / finished notifications per context):
+//     a notification dequeued a node its predicate rejects;
+//   * a wait that returns true although nobody dequeued the node cannot happen silently: it shows as a P() that
+//     consumed a V nobody issued -> visible as DOUBLE-V/lost V; covered by the trace replay.
 // Built with -fno-access-control -I/repo/src -I/repo/src/tbb and the E-SHIM prelude.
 #include "tbb/concurrent_monitor.h"
 #include <cstdio>
@@ -28,8 +40,8 @@
 
 using namespace tbb::detail::r1;
 
-struct WOp { unsigned long ctx; int cond; };
-struct NOp { int type; int cond; int kind; unsigned long ctx; bool relaxed; };   // type 0 sig, 1 clr; kind 0 ctx 1 all 2 one 3 abort
+struct WOp { unsigned long ctx; int cond; int gate; };   // gate > 0: wait for <gate> enqueued nodes before this wait()
+struct NOp { int type; int cond; int kind; unsigned long ctx; bool relaxed; int gate; };   // type 0 sig, 1 clr; kind 0 ctx 1 all 2 one 3 abort 4 one(pred)
 struct Prog { bool sleeper; std::vector<WOp> w; std::vector<NOp> n; };
 static std::vector<Prog> g_progs;
 static int g_nconds = 0;
@@ -46,21 +58,24 @@ static bool parse(FILE* f) {
         std::istringstream is(line); std::string w; is >> w;
         if (w != "S" && w != "N") continue;
         Prog p; p.sleeper = (w == "S");
+        int gate = 0;
         while (is >> w) {
             auto t = split(w, ',');
+            if (t[0] == "g" && t.size() == 2) { gate = atoi(t[1].c_str()); continue; }
             if (p.sleeper) {
                 if (t.size() != 3 || t[0] != "w") return false;
-                WOp o{strtoul(t[1].c_str(), 0, 10), atoi(t[2].c_str())};
+                WOp o{strtoul(t[1].c_str(), 0, 10), atoi(t[2].c_str()), gate}; gate = 0;
                 if (o.cond + 1 > g_nconds) g_nconds = o.cond + 1;
                 p.w.push_back(o);
             } else if (t[0] == "clr" && t.size() == 2) {
-                NOp o{1, atoi(t[1].c_str()), 0, 0, false};
+                NOp o{1, atoi(t[1].c_str()), 0, 0, false, gate}; gate = 0;
                 if (o.cond + 1 > g_nconds) g_nconds = o.cond + 1;
                 p.n.push_back(o);
             } else if (t[0] == "sig" && t.size() == 4) {
-                NOp o{0, t[1] == "-" ? -1 : atoi(t[1].c_str()), 0, 0, t[3] == "r"};
+                NOp o{0, t[1] == "-" ? -1 : atoi(t[1].c_str()), 0, 0, t[3] == "r", gate}; gate = 0;
                 if (t[2] == "all") o.kind = 1; else if (t[2] == "one") o.kind = 2; else if (t[2] == "abort") o.kind = 3;
-                else if (t[2][0] == 'c') { o.kind = 0; o.ctx = strtoul(t[2].c_str() + 1, 0, 10); } else return false;
+                else if (t[2][0] == 'c') { o.kind = 0; o.ctx = strtoul(t[2].c_str() + 1, 0, 10); }
+                else if (t[2][0] == 'p') { o.kind = 4; o.ctx = strtoul(t[2].c_str() + 1, 0, 10); } else return false;
                 if (o.cond + 1 > g_nconds) g_nconds = o.cond + 1;
                 p.n.push_back(o);
             } else return false;
@@ -73,14 +88,22 @@ static bool parse(FILE* f) {
 struct Shared {
     concurrent_monitor mon;
     std::atomic<int> cond[16];
+    std::atomic<int> enq;           // ghost: number of wait() calls whose node has been enqueued (unnamed)
 };
+static void gate_wait(Shared* sh, int k) {
+    while (sh->enq.load(std::memory_order_relaxed) < k) tbb::detail::machine_pause(1);
+}
 
 static bool run_once(verif::Schedule& sch, int run_idx, bool print) {
     Shared* sh = new Shared();      // leaked on deadlock (process exits); destroyed otherwise
     for (int i = 0; i < 16; ++i) sh->cond[i].a.store(0);
+    sh->enq.a.store(0);
     size_t T = g_progs.size();
     std::vector<std::vector<int>> res(T);
     std::vector<int> cur_cond(T, -1);          // condition the sleeper is currently waiting for (ghost)
+    // ghost (only the baton holder runs): notifications started / finished whose predicate accepts context c (index c, c < 32)
+    std::vector<long> acc_started(32, 0), acc_finished(32, 0);
+    std::string wrong_ctx;
     verif::clear_names();
     verif::name_addr(&sh->mon.my_epoch, "epoch");
     verif::name_addr(&sh->mon.my_waitset.count, "count");
@@ -95,37 +118,61 @@ static bool run_once(verif::Schedule& sch, int run_idx, bool print) {
                 concurrent_monitor::thread_context node{std::uintptr_t(o.ctx)};
                 verif::name_addr(&node.my_is_in_list, "inl" + std::to_string(t));
                 verif::name_addr(node.sema.begin(), "sem" + std::to_string(t));
+                if (o.gate > 0) gate_wait(sh, o.gate);
                 cur_cond[t] = o.cond;
                 verif::note("wait_begin", o.ctx, (uint64_t)o.cond);
-                int r;
-                try { r = sh->mon.wait([&] { return sh->cond[o.cond].load(std::memory_order_relaxed) != 0; }, node) ? 1 : 0; }
+                int r; bool counted = false;
+                const long fin0 = acc_finished[o.ctx % 32];
+                try { r = sh->mon.wait([&] {
+                        if (!counted) { counted = true; sh->enq.fetch_add(1, std::memory_order_relaxed); }
+                        return sh->cond[o.cond].load(std::memory_order_relaxed) != 0; }, node) ? 1 : 0; }
                 catch (tbb::detail::r1::user_abort&) { r = 2; }
                 cur_cond[t] = -1;
+                if (r == 1 && acc_started[o.ctx % 32] <= fin0 && wrong_ctx.empty())
+                    wrong_ctx = "WRONG-CONTEXT-WAKEUP sleeper " + std::to_string(t) + " ctx " + std::to_string(o.ctx) +
+                                " woken, no notification accepting its context in flight";
                 res[t].push_back(r);
                 verif::note("wait_end", (uint64_t)r, 0);
                 // ~sleep_node pumps a skipped wake-up here
             }
         } else {
             for (auto& o : p.n) {
+                if (o.gate > 0) gate_wait(sh, o.gate);
                 if (o.type == 1) { sh->cond[o.cond].store(0, std::memory_order_relaxed); continue; }
                 if (o.cond >= 0) sh->cond[o.cond].store(1, std::memory_order_relaxed);
                 unsigned long c = o.ctx;
                 auto pred = [c](std::uintptr_t ctx) { return ctx == c; };
+                const bool any = !(o.kind == 0 || o.kind == 4);
+                for (unsigned long x = 0; x < 32; ++x) if (any || x == c % 32) acc_started[x]++;
                 switch (o.kind) {
                 case 0: if (o.relaxed) sh->mon.notify_relaxed(pred); else sh->mon.notify(pred); break;
                 case 1: if (o.relaxed) sh->mon.notify_all_relaxed(); else sh->mon.notify_all(); break;
                 case 2: if (o.relaxed) sh->mon.notify_one_relaxed(); else sh->mon.notify_one(); break;
                 case 3: if (o.relaxed) sh->mon.abort_all_relaxed(); else sh->mon.abort_all(); break;
+                case 4: if (!o.relaxed) tbb::detail::d0::atomic_fence_seq_cst(); sh->mon.notify_one_relaxed(pred); break;
                 }
+                for (unsigned long x = 0; x < 32; ++x) if (any || x == c % 32) acc_finished[x]++;
             }
         }
     });
     verif::Result r = verif::run(bodies, sch);
-    std::string verdict = "ok";
+    std::string verdict = wrong_ctx.empty() ? "ok" : wrong_ctx;
     // DOUBLE-V monitor on the raw log
     for (auto& e : r.log) {
         if (e.kind == verif::K_XCHG && e.b == 0 && e.a == 0 && verif::addr_name(e.addr).compare(0, 3, "sem") == 0) {
             verdict = "DOUBLE-V " + verif::addr_name(e.addr) + " by thread " + std::to_string(e.tid);
+        }
+    }
+    {   // mutual exclusion of the wait set: count / epoch are written only by the holder of my_mutex
+        int holder = -1;
+        for (auto& e : r.log) {
+            if (e.kind == verif::K_NOTE || e.kind == verif::K_FENCE) continue;
+            const std::string nm = verif::addr_name(e.addr);
+            if (nm == "mflag" && e.kind == verif::K_XCHG) {
+                if (e.a == 0 && e.b == 1) holder = e.tid; else if (e.b == 0) holder = -1;
+            } else if ((nm == "count" || nm == "epoch") && e.kind != verif::K_LOAD && holder != e.tid && verdict == "ok") {
+                verdict = "UNLOCKED-WAITSET-WRITE " + nm + " by thread " + std::to_string(e.tid);
+            }
         }
     }
     if (r.deadlock) {
